@@ -12,6 +12,11 @@ SMI_TYPES_V1 = {'Counter', 'Gauge', 'NetworkAddress', 'IpAddress', 'TimeTicks', 
 SMI_TYPES_V2 = {'Integer32', 'Counter32', 'Gauge32', 'IpAddress', 'TimeTicks', 'Opaque'}
 
 
+# a DEFVAL literal in the notation of each SMIv1 type
+DEFVAL_FOR = {'INTEGER': '5', 'Counter': '5', 'Gauge': '5', 'TimeTicks': '5', 'NetworkAddress': "'c0a80001'H", 'IpAddress': "'c0a80001'H",
+              'OCTET STRING': '"ab"', 'Opaque': "'6162'H", 'DisplayString': '"ab"', 'OBJECT IDENTIFIER': 'pairRoot'}
+
+
 def build(sc, v1):
     home = sc['home']
     imports = {}
@@ -39,8 +44,11 @@ def build(sc, v1):
     for k, o in enumerate(sc['objs'], 1):
         n = 'pairObj%d' % k
         names.append(n)
-        decls.append({'k': 'objecttype', 'name': n, 'syntax': {'base': typ(o['type'])}, 'access': o['access'], 'status': st(o['status']),
-                      'description': 'object %d' % k, 'oid': {'parent': 'pairRoot', 'arcs': [[None, k]]}})
+        d = {'k': 'objecttype', 'name': n, 'syntax': {'base': typ(o['type'])}, 'access': o['access'], 'status': st(o['status']),
+             'description': 'object %d' % k, 'oid': {'parent': 'pairRoot', 'arcs': [[None, k]]}}
+        if o.get('defval'):
+            d['defval'] = DEFVAL_FOR[o['type']]
+        decls.append(d)
     typeindex = sc['idxtype'].startswith('TYPE:')
     if sc['table']:
         it = typ(sc['idxtype'].split(':')[-1])
@@ -75,7 +83,7 @@ def oidseq(s):
 
 
 def project(text, sc, backend_py, scratch, v1):
-    obs = {'status': '?', 'error': '', 'syms': [], 'pyclass': [], 'access': [], 'trap': {'cls': '-', 'oid': [], 'refs': []}, 'imports': []}
+    obs = {'status': '?', 'error': '', 'syms': [], 'pyclass': [], 'access': [], 'defaults': [], 'trap': {'cls': '-', 'oid': [], 'refs': []}, 'imports': []}
     pj = mibs.Pipeline({'PAIR-MIB': text}, backend='json')
     rj = pj.compile('PAIR-MIB')
     st = rj.get('PAIR-MIB')
@@ -92,6 +100,8 @@ def project(text, sc, backend_py, scratch, v1):
                             'status': e.get('status', '-'), 'refs': refs})
     for k in range(1, len(sc['objs']) + 1):
         obs['access'].append(doc.get('pairObj%d' % k, {}).get('maxaccess', '-'))
+        dv = doc.get('pairObj%d' % k, {}).get('default', {}).get('default')
+        obs['defaults'].append('-' if dv is None else json.dumps(dv, sort_keys=True))
     t = doc.get('pairTrap', {})
     obs['trap'] = {'cls': t.get('class', '-'), 'oid': oidseq(t.get('oid', '')), 'refs': [[x.get('module'), x.get('object')] for x in t.get('objects', [])]}
     obs['imports'] = [m for m, syms in doc.get('imports', {}).items() if isinstance(syms, list)]
@@ -191,7 +201,7 @@ def run(out, prop, tier, seed, **kw):
         traces.append(r)
         out.evaluations += 1
         out.distinct.add(json.dumps(r['sc'], sort_keys=True))
-    empty = {'status': '-', 'error': '', 'syms': [], 'pyclass': [], 'access': [], 'trap': {'cls': '-', 'oid': [], 'refs': []}, 'imports': []}
+    empty = {'status': '-', 'error': '', 'syms': [], 'pyclass': [], 'access': [], 'defaults': [], 'trap': {'cls': '-', 'oid': [], 'refs': []}, 'imports': []}
     rows = rewrite_rows()
     for r in rows:
         r.update(sc=[], pysnmp=False, v1=empty, v2=empty, texts='')
